@@ -686,3 +686,23 @@ def oracle_c12(rec):
                 issues.append(dict(what='agent-fitness', ev=i, agent=j))
                 break
     return issues, stats
+
+
+def oracle_c08(rec):
+    cfg = rec['cfg']
+    issues, stats = [], dict(forests=0, trees=0)
+    if cfg['kind'] != 'GP':
+        return issues, stats
+    pts = [(i, e['gp']) for i, e in enumerate(rec['events']) if e['t'] == 'dump' and e.get('gp')]
+    if rec.get('final_gp') is not None:
+        pts.append(('final', rec['final_gp']))
+    for i, g in pts:
+        stats['forests'] += 1
+        stats['trees'] += g['n_trees'] + 1
+        if g['defects']:
+            issues.append(dict(what='malformed-tree', ev=i, defects=g['defects']))
+        if g['overlap']:
+            issues.append(dict(what='shared-node', ev=i, overlap=g['overlap']))
+        if g['n_trees'] != cfg['n_agents']:
+            issues.append(dict(what='tree-count', ev=i, trees=g['n_trees']))
+    return issues, stats
